@@ -214,9 +214,13 @@ func (c *Check[C]) Execute(t *testing.T) {
 		return err
 	}
 
-	// Fixed cases only on shard 0 (they are identical in every shard).
-	if c.Fixed != nil && shard == 0 {
+	// Fixed cases are identical in every shard: fixed case i runs on shard i mod nshards.
+	nshards := envInt("VERIF_SHARDS", 1)
+	if c.Fixed != nil {
 		for i, v := range c.Fixed() {
+			if i%nshards != shard%nshards {
+				continue
+			}
 			if err := one(v, true); err != nil {
 				vv := v
 				failed, failErr = &vv, err
@@ -238,6 +242,27 @@ func (c *Check[C]) Execute(t *testing.T) {
 			rt.Fatalf("%s: %v", c.Name, err)
 		}
 	})
+}
+
+// FuzzOne runs the oracle on one case decoded from fuzzer input (native go test -fuzz targets). A failure
+// is saved as an ordinary replay file, so fuzz findings replay exactly like rapid findings.
+func (c *Check[C]) FuzzOne(t *testing.T, v C) {
+	t.Helper()
+	err := c.exec(v, &Obs{})
+	if err == nil {
+		return
+	}
+	var inc *Inconclusive
+	if errors.As(err, &inc) {
+		return
+	}
+	var f *Failure
+	if errors.As(err, &f) && openClasses()[c.Name+":"+f.Class] {
+		return
+	}
+	path := writeReplay(c.Property(), c.Name, v, err)
+	fmt.Printf("VERIF-FAIL check=%s replay=%s\n", c.Name, path)
+	t.Fatalf("%s: %v", c.Name, err)
 }
 
 func writeReplay(property, check string, v any, err error) string {
